@@ -250,8 +250,25 @@ def run(ctx, host=None):
             chk.bad(R1c, cl.qualname, nd, f'Container.close() no longer calls {nd}: the SQLite file descriptors of that session stay open', where=f'{cl.module.relpath}:{cl.lineno}')
     ndispose = sum(1 for ff in (cl, prog.fn('container:Container._close_operation_session')) for n in walk_local(ff.node)
                    if isinstance(n, ast.Call) and isinstance(n.func, ast.Attribute) and n.func.attr == 'dispose')
-    if ndispose >= 2:
-        chk.ok(R1c, cl.qualname, 'binding.dispose() x2', detail='connection pools of both engines are released')
+    badguard = None
+    for ff in (cl, prog.fn('container:Container._close_operation_session')):
+        for n in walk_local(ff.node):
+            if isinstance(n, ast.Call) and isinstance(n.func, ast.Attribute) and n.func.attr == 'dispose':
+                a = getattr(n, '_parent', None)
+                while a is not None and a is not ff.node:
+                    if isinstance(a, (ast.If, ast.While, ast.IfExp)):
+                        t = norm(a.test)
+                        if not (t.startswith('isinstance(') or t.endswith('is not None') or t.endswith('is None')):
+                            badguard = (ff, a)
+                    if isinstance(a, (ast.Try,)) and any(n is x for h in a.handlers for b in h.body for x in ast.walk(b)):
+                        badguard = (ff, a)
+                    a = getattr(a, '_parent', None)
+    if badguard is not None:
+        chk.bad(R1c, badguard[0].qualname, f'if {norm(badguard[1].test)[:60]}: ... dispose()' if hasattr(badguard[1], 'test') else 'dispose() in a handler', 'the engine of a closed session is disposed only '
+                'under a further condition: on the other path the engine is dropped with its pooled SQLite connection still open (packs.idx, -wal), out of reach of close() -- descriptors accumulate '
+                'with every session refresh until a garbage collection happens to run', where=f'{badguard[0].module.relpath}:{badguard[1].lineno}')
+    elif ndispose >= 2:
+        chk.ok(R1c, cl.qualname, 'binding.dispose() x2', detail='connection pools of both engines are released; guarded only by the None / isinstance tests')
     else:
         chk.bad(R1c, cl.qualname, 'binding.dispose()', f'engine disposal found {ndispose} time(s), expected for both sessions: pooled SQLite connections keep descriptors open after close()',
                 where=f'{cl.module.relpath}:{cl.lineno}')
@@ -460,6 +477,30 @@ def run(ctx, host=None):
                 else:
                     chk.bad(R5, f.qualname, norm(n)[:100], f'the copy buffer size `{norm(ln)}` is not a constant: with an object-sized buffer the whole object is read into memory in one call',
                             where=f'{f.module.relpath}:{n.lineno}')
+
+    # whole-object helpers (content in / out as one bytes object) are API conveniences for callers who know the object fits in memory: the package itself
+    # never routes its own work through them, except the import cache, which is bounded by target_memory_bytes (checked above)
+    WHOLE = {'get_object_content': (), 'get_objects_content': (), 'add_object': (), 'add_objects_to_pack': ('container:Container.import_objects',)}
+    from .common import CallGraph, Summaries as _Sum
+    cg = CallGraph(ctx, S if 'S' in dir() else _Sum(ctx))
+    for name, allowed in WHOLE.items():
+        tf = contc.methods.get(name)
+        chk.require(tf is not None, f'Container.{name} not found')
+        callers = sorted(c for c in cg.callers.get(tf.qualname, set()) if c not in allowed and c.split('.')[-1] not in WHOLE)
+        # calls by name that the resolver may not see (self.<name>(...) in any function of the package)
+        for f in prog.all_functions():
+            if isinstance(f.node, ast.Lambda) or f.qualname in allowed or f.name in WHOLE:
+                continue
+            for n in walk_local(f.node):
+                if isinstance(n, ast.Call) and isinstance(n.func, ast.Attribute) and n.func.attr == name and f.qualname not in callers and f.module.name in ('container', 'utils', 'backup_utils'):
+                    callers.append(f.qualname)
+        if callers:
+            for c in callers:
+                cf_ = prog.fn(c)
+                chk.bad(R5, c, f'call of {name}()', f'`{name}` holds a whole object in memory; it is called from `{c}`, one of the package\'s own paths (the lazy loose copy, packing, validation, ... '
+                        'are documented to stream in bounded chunks): peak memory now grows with the object size', where=f'{cf_.module.relpath}:{cf_.lineno}')
+        else:
+            chk.ok(R5, tf.qualname, f'callers inside the package: {list(allowed) or "none"}', detail='whole-object helper not used by the streaming paths', nontrivial=False)
 
     from .common import option_forwarding
     R6 = chk.rule('C18.R6', 'open_streams is forwarded unchanged by every wrapper (lazily opened inputs stay lazy)', 1)
